@@ -10,6 +10,21 @@ type syntaxChildMultiIdentifier struct {
 	unionQualifier syntaxUnionQualifier
 }
 
+// setNext links the continuation into every inner identifier (and the
+// all-wildcard union twin), however the multi-identifier itself was reached:
+// directly as the tail of the chain or through a recursive descent node.
+func (i *syntaxChildMultiIdentifier) setNext(next syntaxNode) {
+	if i.next == nil {
+		for _, identifier := range i.identifiers {
+			identifier.setNext(next)
+		}
+		if i.isAllWildcard {
+			i.unionQualifier.setNext(next)
+		}
+	}
+	i.syntaxBasicNode.setNext(next)
+}
+
 func (i *syntaxChildMultiIdentifier) retrieve(
 	root, current interface{}, container *bufferContainer) errorRuntime {
 
